@@ -146,7 +146,11 @@ class ASEEngine(EngineBase):
         traj_file = os.path.join(self.exe_dir, f"{name}.traj")
         traj = Trajectory(traj_file, "w")
         msg_file.write(f"# Trajectory file is: {traj_file}")
-        dyn = self.Integrator(atoms, **self.integrator_settings)
+        integrator_settings = dict(self.integrator_settings)
+        if self.Integrator is Langevin:
+            # draw the noise from the stream of this move
+            integrator_settings["rng"] = getattr(self, "rgen", None)
+        dyn = self.Integrator(atoms, **integrator_settings)
         atoms.calc = self.calc
         # we give the calculator object the system and order
         # information in case it is needed during force calculations
@@ -221,7 +225,12 @@ class ASEEngine(EngineBase):
             atoms = atoms[0]
         kin_old = atoms.get_kinetic_energy()
 
-        MaxwellBoltzmannDistribution(atoms, temperature_K=self.temperature)
+        # draw from the stream of this move (select_shoot sets engine.rgen)
+        MaxwellBoltzmannDistribution(
+            atoms,
+            temperature_K=self.temperature,
+            rng=getattr(self, "rgen", None),
+        )
         kin_new = atoms.get_kinetic_energy()
         if vel_settings.get("zero_momentum", False):
             # TODO: should we preserve temperature or not?
